@@ -24,10 +24,13 @@ def instances(tier, seed):
     for (a, b, c) in hints:
         out.append(dict(name=f"find:S1:axis0:hints{a}{b}{c}", family='find', struct='S1', axes=[(a + b) % 3], other=(0.1, 0.9, 0.4),
                         axisp1_idx=a, axisp2_idx=b, opoint_idx=c, cost=15))
+    out += axis_instances(tier)
     return out
 
 
 def body(ctx, p):
+    if p['family'] == 'axis':
+        return axis_body(ctx, p)
     R = run_find(ctx, p)
     ctx.observe('groups', [list(t) for t in sorted(R['idx'])] if R['motif'] not in ('ch4', 'trig-sym4', 'linear-sym3', 'ch2-sym3') else len(R['idx']))
     check_sound(ctx, R)
